@@ -131,6 +131,27 @@ check("C10",
       "Lean 4 proofs of the summary logic + differential correspondence + listing-vs-extraction exploration",
       "DESIGN.md §4 C10")
 
+check("C09",
+      "Theorem (Lean, every archive shape and EVERY subset of members): on a fresh session extract(T) delivers exactly "
+      "the selected part of what extractall delivers, with identical folder/offset/length per member (skip arithmetic "
+      "of decode-and-discard, folders without targets skipped, trailing members not decoded); trailing slash immaterial; "
+      "absent names ignored; recursive selection = target + members beneath it under the quantifier's prefix-freedom. "
+      "Tied by the sel and rs streams. Explored on py7zr- and reference-written archives (solid, multi-folder, "
+      "empty-stream files between data members): all subsets T for small archives, list/set, +/- '/', recursive, "
+      "directory and factory output, created paths = selected members + ancestors.",
+      "Lean 4 proof (induction over folders/members) + differential correspondence + exhaustive-subset exploration",
+      "DESIGN.md §4 C09")
+check("C11",
+      "Theorems (Lean): with a chain ending in 7zAES every content byte reaches the cipher exactly once, in order, in "
+      "16-byte aligned calls, zero padded, for every chunking; header-mode machine (any setter sequence): encrypted -> "
+      "encoded and the AES filter is chosen iff encrypted; AES coder and no password -> PasswordRequired before any "
+      "decode; wrong-key output is delivered only on a CRC-32 collision. Tied by the aes stream and by the setter "
+      "sequences run on real SevenZipFile objects. Explored: plaintext / compressed-form / name windows searched in the "
+      "archive bytes, IV and ciphertext reuse across two builds, absent / wrong / right passwords (Unicode, empty), "
+      "independent KDF decrypts. Partial: secrecy of AES-CBC, RNG quality and KDF strength are outside any model here.",
+      "Lean 4 invariant proof of the AES residue buffers + decision-logic theorems + differential correspondence + leak/IV/password exploration",
+      "DESIGN.md §4 C11")
+
 ALL = ["C%02d" % i for i in range(1, 21)]
 REASON_PENDING = "not yet claimed in this revision: model/theorems/correspondence for it are still being built (see DESIGN.md §8.3 staging)"
 
